@@ -133,7 +133,9 @@ func (e *explorer) explore(prefix []int) {
 	if e.stop {
 		return
 	}
-	if time.Now().After(e.deadline) {
+	if time.Now().After(e.deadline) || verifsched.StuckSeen.Load() {
+		// (a run of this process ended with a thread blocked outside the modelled
+		// synchronisation: reported by that run; nothing further is explored)
 		e.stop, e.res.Truncated = true, true
 		return
 	}
@@ -141,6 +143,14 @@ func (e *explorer) explore(prefix []int) {
 	if run.Diverged != "" {
 		e.stop = true
 		e.res.EngineError = "replay divergence: " + run.Diverged
+		return
+	}
+	if run.Stuck {
+		// a thread sits in an operation outside the modelled synchronisation: the execution was
+		// cut short (so it cannot be compared with its prefix); report it and stop
+		e.res.Schedules++
+		e.record(chosen(run.Points), ex)
+		e.stop, e.res.Truncated = true, true
 		return
 	}
 	pts := run.Points
